@@ -677,7 +677,7 @@ impl Walrus {
         let mut planned_bytes: usize = 0;
         let chain_len_at_plan = chain.len();
 
-        while cur_idx < chain.len() && planned_bytes < max_bytes {
+        while cur_idx < chain.len() && (planned_bytes < max_bytes || plan.is_empty()) {
             let block = chain[cur_idx].clone();
             if cur_off >= block.used {
                 if info_guard.is_some() {
